@@ -23,7 +23,7 @@ import numpy as np
 import z3
 from numba.core import types
 
-from ..core import Ctx, Inconclusive, explore
+from ..core import NumpyFallback, Ctx, Inconclusive, explore
 from ..fftc import hooks
 from ..nbsym import Interp, NArr, Sym, capture
 
@@ -250,7 +250,7 @@ def widths_work(P, item):
     from ..core import SInt, SReal, rebind, s_int, s_max, wrap
     from sigpyproc.core import filters
 
-    class NPw:
+    class NPw(metaclass=NumpyFallback):
         float32 = np.float32
 
         @staticmethod
